@@ -22,8 +22,11 @@ pub fn c03_ema() {
 	let a = 2.0 / ((n as ValueType) + 1.0);
 	let mut m = EMA::new(n, &v0).unwrap();
 	let mut e = v0;
+	let pattern = rsx::param_str("shape");
+	let mut hist_in: Vec<ValueType> = vec![v0];
 	for i in 0..t {
-		let x = rsx::val_i("x", i);
+		let x = shaped_input(&pattern, i, &hist_in);
+		hist_in.push(x);
 		e = ema_step(e, x, a);
 		rsx::close("ema.next", m.next(&x), e, scale);
 		rsx::close("ema.peek", m.peek(), e, scale);
@@ -140,8 +143,11 @@ pub fn c03_tsi() {
 	let mut m = TSI::new(s, l, &v0).unwrap();
 	let mut last = v0;
 	let (mut n1, mut n2, mut d1, mut d2) = (0.0, 0.0, 0.0, 0.0);
+	let pattern = rsx::param_str("shape");
+	let mut hist_in: Vec<ValueType> = vec![v0];
 	for i in 0..t {
-		let x = rsx::val_i("x", i);
+		let x = shaped_input(&pattern, i, &hist_in);
+		hist_in.push(x);
 		let mom = x - last;
 		last = x;
 		n1 = ema_step(n1, mom, al);
@@ -164,8 +170,11 @@ pub fn c03_vidya() {
 	let mut changes: Vec<ValueType> = vec![0.0; n as usize];
 	let mut last_in = v0;
 	let mut y = v0;
+	let pattern = rsx::param_str("shape");
+	let mut hist_in: Vec<ValueType> = vec![v0];
 	for i in 0..t {
-		let x = rsx::val_i("x", i);
+		let x = shaped_input(&pattern, i, &hist_in);
+		hist_in.push(x);
 		changes.push(x - last_in);
 		last_in = x;
 		let w = r_last(&changes, n as usize);
